@@ -92,10 +92,40 @@ _TRIPLE_IN_FIELD = re.compile(rb"\{[^{}]*('''|\"\"\")")
 
 def logical_line_end(text, b, start, stmt_end):
     """Byte offset of the end of the logical line that contains byte offset `start` (CPython tokenize decides)."""
-    fallback = b.find(b"\n", stmt_end)
-    fallback = fallback if fallback >= 0 else len(b)
-    if "\r" in text or "\x0c" in text:
+    m = re.compile(rb"[\r\n]").search(b, stmt_end)
+    fallback = m.start() if m else len(b)
+    if "\x0c" in text:
         return fallback
+    if "\r" in text:
+        # tokenize an LF-only copy and map offsets back and forth (CRLF is one line break)
+        norm, back = [], []   # back[i] = original byte offset of norm char i
+        o = i = 0
+        while i < len(text):
+            ch = text[i]
+            back.append(o)
+            if ch == "\r":
+                norm.append("\n")
+                if text[i + 1:i + 2] == "\n":
+                    i += 1
+                    o += 1
+                o += 1
+            else:
+                norm.append(ch)
+                o += len(ch.encode("utf-8", "surrogatepass"))
+            i += 1
+        back.append(o)
+        ntext = "".join(norm)
+        nb = ntext.encode("utf-8", "surrogatepass")
+        # original byte offset -> norm byte offset
+        import bisect
+        nbyte = [0]
+        for ch in norm:
+            nbyte.append(nbyte[-1] + len(ch.encode("utf-8", "surrogatepass")))
+        k = bisect.bisect_right(back, start) - 1
+        k2 = bisect.bisect_right(back, stmt_end) - 1
+        end_n = logical_line_end(ntext, nb, nbyte[max(k, 0)], nbyte[max(k2, 0)])
+        j = bisect.bisect_left(nbyte, end_n)
+        return back[min(j, len(back) - 1)]
     toks = derive.tokens(text)
     if not toks:
         return fallback
@@ -144,7 +174,7 @@ def classify_reject(text, mode, rep, pt):
         r = s["_r"]
         if r[0] <= off and (cand is None or r[0] >= cand["_r"][0]):
             # innermost / latest statement starting at or before the error
-            line_start = b.rfind(b"\n", 0, r[0]) + 1
+            line_start = max(b.rfind(b"\n", 0, r[0]), b.rfind(b"\r", 0, r[0])) + 1
             if b[line_start:r[0]].strip(b" \t\x0c") == b"":
                 cand = s
     if cand is not None:
